@@ -377,8 +377,7 @@ class GeoStoreMachine(StoreMachine):
             for p in w.pos:
                 if not all(lo * 10 <= v <= hi / 10 for v in p):
                     return False
-        # names must be fresh as the file would give them (stale derived lists are C10's subject)
-        return (geo.block_name_list, geo.block_connection_name_list) == my_name_lists(geo)
+        return True
 
     def apply(self, op):
         kind, ch, fault = op[0], list(op[1]) + [0] * 9, (op[2] if len(op) > 2 else None)
@@ -415,6 +414,14 @@ class GeoStoreMachine(StoreMachine):
                 col = geo.columnlist[0]
                 import numpy as np
                 col.centre = np.array(col.centre) + 0.3
+                col.centre_specified = 1
+            elif sub2 % 7 == 1:
+                # a specified centre lying on a coordinate axis
+                import numpy as np
+                col = geo.columnlist[-1]
+                c = np.array(col.centre, dtype=float)
+                c[rng.randrange(2)] = 0.0
+                col.centre = c
                 col.centre_specified = 1
             self.objs[slot % self.SLOTS] = geo
             ctx.fp.append(('N', geo.convention, geo.atmosphere_type, geo.unit_type,
